@@ -49,7 +49,7 @@ func (p *c19) Cases(tier string, emit func(interface{})) {
 	for _, lf := range typesLeaves() {
 		emit(c19Case{Part: "values", Schema: "types", Leaf: lf})
 	}
-	for _, sc := range []string{"base", "keys", "choice"} {
+	for _, sc := range []string{"base", "keys", "choice", "multi"} {
 		emit(c19Case{Part: "trees", Schema: sc, B: c04B(tier)})
 	}
 	emit(c19Case{Part: "lists", Schema: "base"})
@@ -58,6 +58,36 @@ func (p *c19) Cases(tier string, emit func(interface{})) {
 }
 
 // wellFormed parses text with the standard library: single root, nothing after.
+// xmlNamespaces checks that every element is in the name space of the module that defines the
+// node of that name (harness' own module map; the root element is the module itself).
+func xmlNamespaces(m *meta.Module, text string) string {
+	modOf := model.ModuleOf[m.Ident()]
+	d := stdxml.NewDecoder(strings.NewReader(text))
+	depth := 0
+	for {
+		tok, err := d.Token()
+		if err != nil {
+			return ""
+		}
+		switch t := tok.(type) {
+		case stdxml.StartElement:
+			want := m.Namespace()
+			if depth > 0 && modOf != nil {
+				want = "urn:" + modOf(t.Name.Local)
+			}
+			depth++
+			if t.Name.Space != want {
+				if depth == 1 {
+					return "root-element-in-wrong-namespace"
+				}
+				return "element-in-wrong-namespace"
+			}
+		case stdxml.EndElement:
+			depth--
+		}
+	}
+}
+
 func wellFormed(text string) string {
 	d := stdxml.NewDecoder(strings.NewReader(text))
 	depth, roots := 0, 0
@@ -158,6 +188,10 @@ func c19Check(c c19Case, m *meta.Module, t *model.Tree, what, typ string, writer
 			continue
 		}
 		if sym := wellFormed(text); sym != "" {
+			report(sym, text)
+			continue
+		}
+		if sym := xmlNamespaces(m, text); sym != "" {
 			report(sym, text)
 			continue
 		}
